@@ -141,6 +141,96 @@ Proof.
   intros H. inversion H; subst. split; assumption.
 Qed.
 
+(* ------------------------------------------------ the guarded run-time paths *)
+Lemma expect_val : forall A (x : out A) r, x = Val r -> expect x = Val r.
+Proof. intros A x r H. rewrite H. reflexivity. Qed.
+
+Theorem upower_guarded_no_panic : forall fs e, upower_guarded fs e <> Panic.
+Proof.
+  intros fs e. unfold upower_guarded.
+  destruct (fmap_exp (fun m => rmul_checked m e) fs) as [| |r] eqn:E.
+  - exfalso. revert E. apply np_fmap_exp. intros. apply np_rmul_checked.
+  - discriminate.
+  - unfold upower. rewrite (fmap_exp_expect _ (fun m => rmul_checked m e)) by (intros; apply rmul_expect).
+    rewrite E. discriminate.
+Qed.
+
+Definition all_wf (fs : list factor) : Prop := Forall (fun f => wf_ratio (snd f)) fs.
+
+Lemma radd_checked_wf : forall x y r, wf_ratio x -> wf_ratio y -> radd_checked x y = Val r -> wf_ratio r.
+Proof.
+  intros [a b] [c d] r (Fa & Fb & Pb) (Fc & Fd & Pd). cbn [fst snd] in *.
+  unfold radd_checked. cbv zeta. set (g := Z.gcd b d).
+  assert (Hg : 0 < g).
+  { unfold g. pose proof (Z.gcd_nonneg b d). assert (Z.gcd b d <> 0); [|lia].
+    intro E. apply Z.gcd_eq_0_l in E. lia. }
+  unfold c_mul at 1. destruct (fits (b / g * d)) eqn:Fl; [|discriminate]. cbn [bind].
+  set (l := b / g * d) in *.
+  assert (Pl : 0 < l).
+  { unfold l. apply Z.mul_pos_pos; [|lia]. apply Z.div_str_pos. split; [lia|].
+    apply Z.divide_pos_le; [lia|]. unfold g. apply Z.gcd_divide_l. }
+  intros H.
+  destruct (c_mul (l / b) a) as [| |ln]; try discriminate. cbn [bind] in H.
+  destruct (c_mul (l / d) c) as [| |rn]; try discriminate. cbn [bind] in H.
+  unfold c_add in H. destruct (fits (ln + rn)) eqn:Fs; [|discriminate]. cbn [bind] in H.
+  inversion H; subst. repeat split; cbn [fst snd]; assumption.
+Qed.
+
+Lemma fmerge_expect_wf : forall fs, all_wf fs ->
+  fmerge fs = expect (ftry_merge fs) /\ (forall r, ftry_merge fs = Val r -> all_wf r).
+Proof.
+  induction fs as [|[k m] fs IH]; intros W.
+  - split; [reflexivity|]. intros r H. inversion H. constructor.
+  - inversion W as [|? ? Wm Wfs]; subst. cbn [snd] in Wm.
+    destruct (IH Wfs) as [IH1 IH2]. unfold fmerge, ftry_merge in *. cbn [fmerge_with].
+    rewrite IH1. destruct (fmerge_with radd_checked fs) as [| |r'] eqn:E.
+    + split; [reflexivity|discriminate].
+    + split; [reflexivity|discriminate].
+    + specialize (IH2 r' eq_refl). cbn [expect bind].
+      destruct r' as [|[k' m'] r'']; [split; [reflexivity|]; intros r H; inversion H; subst; constructor; [assumption|constructor]|].
+      inversion IH2 as [|? ? Wm' Wr'']; subst. cbn [snd] in Wm'.
+      destruct (Nat.eqb k k').
+      * rewrite (radd_expect m m' Wm Wm').
+        destruct (radd_checked m m') as [| |s] eqn:Es.
+        -- exfalso. revert Es. apply np_radd_checked.
+        -- split; [reflexivity|discriminate].
+        -- split; [reflexivity|]. intros r H. inversion H; subst. constructor; [|assumption].
+           cbn [snd]. apply (radd_checked_wf m m'); assumption.
+      * split; [reflexivity|]. intros r H. inversion H; subst. constructor; [assumption|]. constructor; assumption.
+Qed.
+
+Lemma all_wf_concat : forall a b, all_wf a -> all_wf b -> all_wf (fconcat_sorted a b).
+Proof.
+  induction a as [|[ka ma] ra IHa]; intros b Wa Wb; [exact Wb|].
+  inversion Wa; subst.
+  induction b as [|[kb mb] rb IHb]; [exact Wa|].
+  inversion Wb; subst. cbn [fconcat_sorted].
+  destruct (Nat.leb ka kb).
+  - constructor; [assumption|]. apply IHa; assumption.
+  - constructor; [assumption|]. apply IHb. assumption.
+Qed.
+
+Theorem pmultiply_guarded_no_panic : forall a b, all_wf a -> all_wf b -> pmultiply_guarded a b <> Panic.
+Proof.
+  intros a b Wa Wb. unfold pmultiply_guarded.
+  destruct (ftry_merge (fconcat_sorted a b)) as [| |r] eqn:E.
+  - exfalso. revert E. apply np_fmerge_with. apply np_radd_checked.
+  - discriminate.
+  - unfold pmultiply. destruct (fmerge_expect_wf _ (all_wf_concat a b Wa Wb)) as [H _].
+    rewrite H, E. discriminate.
+Qed.
+
+Lemma order_u16_small : forall b, 1 <= b < 65536 -> order_u16 b = b.
+Proof. intros. unfold order_u16. apply Z.mod_small. lia. Qed.
+
+Lemma parse_factorial_order_exact : forall b n, parse_factorial_order b = Some n -> order_u16 n = n /\ 1 <= n.
+Proof.
+  intros b n. unfold parse_factorial_order.
+  destruct ((1 <=? b) && (b <=? 65535)) eqn:E; [|discriminate].
+  intros H. inversion H; subst. apply andb_true_iff in E. destruct E as [E1 E2].
+  apply Z.leb_le in E1. apply Z.leb_le in E2. split; [apply order_u16_small; lia|lia].
+Qed.
+
 (* ------------------------------------------ witnesses of the unchecked paths *)
 (* ((m/cm)^1e30)^1e30 : UnitFactor::power, exponent 1e30 * 1e30 *)
 Lemma upower_refuted :
